@@ -1468,9 +1468,38 @@ class SymbolTable():
 
         # If the Container is not yet in the SymbolTable we need to
         # create one and add it.
+        new_container = None
         if external_container_name not in self:
-            self.add(ContainerSymbol(external_container_name))
+            new_container = ContainerSymbol(external_container_name)
+            self.add(new_container)
         container_ref = self.lookup(external_container_name)
+
+        try:
+            self._copy_external_import(imported_var, tag, container_ref)
+        except KeyError:
+            # The variable has been rejected so leave the table as it was.
+            if new_container:
+                self.remove(new_container)
+            raise
+
+    def _copy_external_import(self, imported_var, tag, container_ref):
+        '''
+        Copy the given imported variable into the SymbolTable given that
+        the associated ContainerSymbol is already present.
+
+        :param imported_var: the variable to be copied in.
+        :type imported_var: :py:class:`psyclone.psyir.symbols.DataSymbol`
+        :param Optional[str] tag: a tag identifier for the new copy.
+        :param container_ref: the ContainerSymbol, in this table or an \
+            ancestor, from which the variable is imported.
+        :type container_ref: \
+            :py:class:`psyclone.psyir.symbols.ContainerSymbol`
+
+        :raises KeyError: if the given variable name already exists in the \
+            symbol table.
+
+        '''
+        external_container_name = container_ref.name
 
         # Copy the variable into the SymbolTable with the appropriate interface
         if imported_var.name not in self:
